@@ -525,12 +525,29 @@ def imageFast (start : Int) (stop : Option Int) (fill : Nat) (es : List Emitted)
   (List.range (last + 1 - start).toNat).map fun (i : Nat) => specImageByte es fill (start + (i : Int))
 
 
+/-- the unmuted byte lines with their bytes in an array (constant-time indexing) -/
+def imageLines (es : List Emitted) : List (Int × Array Nat) :=
+  (es.filter fun e => e.isByte && !e.muted).map fun e => (e.addr, e.bytes.toArray)
+
+def lookupLines (ls : List (Int × Array Nat)) (fill : Nat) (a : Int) : Nat :=
+  match ls.find? fun l => decide (l.1 ≤ a) && decide (a < l.1 + l.2.size) with
+  | some l => l.2[(a - l.1).toNat]!
+  | none => fill
+
+/-- `imageFast` with the lines prepared once -/
+def imageFastA (start : Int) (stop : Option Int) (fill : Nat) (es : List Emitted) : List Nat :=
+  let last := match stop with
+    | some e => e
+    | none => (lastByteAddr es).getD (start - 1)
+  let ls := imageLines es
+  (List.range (last + 1 - start).toNat).map fun (i : Nat) => lookupLines ls fill (start + (i : Int))
+
 /-- `assemble` with the line-by-line image -/
 def assembleFast (cfg : Cfg) (files : List (List Stmt)) (start : Int) (stop : Option Int) (fill : Nat) :
     Except Err Outcome := do
   let (es, L) ← assembleLines cfg files
   overlapCheck none es
-  .ok { image := imageFast start stop (fill % 256) es, emitted := es, labels := L }
+  .ok { image := imageFastA start stop (fill % 256) es, emitted := es, labels := L }
 
 
 /-- spec-level overlap verdict: some two occupying byte lines share an address -/
